@@ -29,16 +29,20 @@
                every use the set of bindings whose value it observes; Landings.
    Design    = jedi: create_context, get_global_filters, ParserTreeFilter,
                GlobalNameFilter, finder.filter_name, AbstractTreeName.goto.
-   Invariants: Design |= Reference (ScopeOK, ExactOK) outside the named deviation
-               shapes; each deviation shape is a confirmed defect of the real code
-               (known_findings.d/C03.json) and is modelled as the code behaves.      *)
+   Verdict(u, g, o) judges a landing set g of use u that observed bindings o:
+     scope  o # {} /\ g # {} => g \subseteq Landings   (only bindings of consulted scopes)
+     exact  straight-line code of one scope => g = o    (exactly the binding observed)
+   Invariant DesignOK: Design |= Reference outside the named deviation mechanisms (Mech);
+   each mechanism is a confirmed defect of the real code (known_findings.d/C03.json)
+   and is modelled as the code behaves.  DesignOKStrict (no guard) must be violated.   *)
 EXTENDS Naturals, Sequences, FiniteSets, TLC, Json
 
 CONSTANTS NNames,     \* size of the identifier pool
           MaxItems,   \* bound on content items (close/endloop are free)
           MaxDepth,   \* bound on nesting of opened scopes (module = 0)
           Feat,       \* enabled constructs: subset of AllFeat (restricting it buys depth)
-          EmitMod, EmitRem
+          EmitMod, EmitRem,   \* emitted slice of the complete programs
+          SpecMod             \* denser slice for the programs singled out by Special
 
 VARIABLES prog, sc, stack, loopAt,
           cnt,    \* number of content items (derived; kept for cheap guards)
@@ -180,6 +184,17 @@ Valid ==
         \A j \in 1..(i - 1) : (prog[j].n = prog[i].n /\ prog[j].t # "open") => SymScope(j) # sc[i]
 
 Complete == stack = <<>> /\ loopAt = 0
+
+\* Oracle hazard, not Python semantics: CPython 3.12.1 (PEP 709 inlining) raises
+\* UnboundLocalError when a comprehension inside a function reads a global/free name that a
+\* sibling or nested comprehension of the same function uses as iteration variable.  Such
+\* programs are checked by TLC (DesignOK) but are not replayed against this interpreter.
+Hazard ==
+  \E a \in Idx : prog[a].t = "target" /\ prog[a].n # 0 /\
+    LET f == NonComp(sc[a])  n == prog[a].n IN
+    /\ Kind(f) \in {"fn", "lambda"} /\ Cls(f, n) # "L"
+    /\ \E u \in Idx : /\ prog[u].t = "use" /\ prog[u].n = n /\ Kind(sc[u]) = "comp"
+                       /\ NonComp(sc[u]) = f /\ SymScope(u) # f /\ Cls(SymScope(u), n) # "L"
 
 ---------------------------------------------------------------------------
 (* Reference, part 2: execution.  ExecSeq = item indices in execution order. *)
@@ -355,7 +370,8 @@ ScopeBad(st, u, g, o) == o # {} /\ g # {} /\ ~(g \subseteq LandingsOf(st, u, o))
 ExactBad(st, u, g, o) == o # {} /\ StraightLine(st, u, o) /\ g # o
 \* <<"ok"|"scope"|"exact", mechanism>>: the verdict of the Reference on landing set g
 Verdict(st, u, g, o) ==
-  IF ScopeBad(st, u, g, o) THEN <<"scope", Mech(st, u, g \ LandingsOf(st, u, o), o)>>
+  IF o # {} /\ 0 \in g THEN <<"scope", "unmapped">>   \* (traces) a landing that is no binding of the program
+  ELSE IF ScopeBad(st, u, g, o) THEN <<"scope", Mech(st, u, g \ LandingsOf(st, u, o), o)>>
   ELSE IF ExactBad(st, u, g, o) THEN <<"exact", Mech(st, u, {}, o)>>
   ELSE <<"ok", "ok">>
 
@@ -456,6 +472,17 @@ CaseRec == LET st == Static  o == ObsOf(st) IN
   [prog |-> prog, sc |-> sc,
    uses |-> [k \in 1..Cardinality(UseSet) |-> UseRec(st, SetToSeq(UseSet)[k], o)],
    cls |-> [k \in 1..Len(ClsScopes) |-> ClsRec(ClsScopes[k])]]
-Emit == (Complete /\ Valid /\ UseSet # {} /\ Hash(prog) % EmitMod = EmitRem) =>
+\* besides the slice, a denser slice of the programs where resolution has something to
+\* decide: an executed use deviates, lands on a textually later binding (position reset /
+\* comprehension scope at work), sits in a header, or its name is bound in two scopes
+Special == LET st == Static  o == ObsOf(st) IN
+           \E u \in UseSet : o[u] # {} /\ LET g == JediGoto(u) IN
+              \/ Verdict(st, u, g, o[u])[1] # "ok"
+              \/ \E b \in g : b > u
+              \/ prog[u].t = "huse"
+              \/ \E b1, b2 \in Idx : /\ IsBind(b1) /\ IsBind(b2) /\ prog[b1].n = prog[u].n
+                                      /\ prog[b2].n = prog[u].n /\ st.var[b1] # st.var[b2]
+Emit == (Complete /\ Valid /\ UseSet # {} /\ ~Hazard /\ (IF Hash(prog) % EmitMod = EmitRem THEN TRUE
+                                                   ELSE Hash(prog) % SpecMod = 0 /\ Special)) =>
           PrintT(<<"CASE", ToJson(CaseRec)>>)
 =============================================================================
